@@ -84,10 +84,11 @@ def readable_count(count):
     if len(num_str) <= 3:
         return num_str + " "
     for factor, prefix in _IEC_PREFIXES:
-        if count > 10 * factor:
+        # One decimal place if the result fits in 3 characters (i.e. it is
+        # displayed as less than 10.0), no decimal place otherwise
+        num_str = format(count / factor, ".1f")
+        if len(num_str) > 3:
             num_str = format(count / factor, ".0f")
-        else:
-            num_str = format(count / factor, ".1f")
         if len(num_str) <= 3:
             return num_str + " " + prefix
     # Fallback: use the last prefix
